@@ -44,11 +44,15 @@ def run(tier, replay=None):
     if ck.coq_ok:
         mm["names"] = ck.coq_eval_cases(lines("cases_names.txt"), hdr, "int * str * str", "name_mismatches", tag="names")
     if ck.coq_ok:
-        mm["split"] = ck.coq_eval_cases(lines("cases_split.txt"), hdr, "int * list str * list (list str) * list str", "split_mismatches", tag="split")
+        mm["split"] = ck.coq_eval_cases(lines("cases_split.txt"), hdr, "int * list str * list str * list (list str) * list str", "split_mismatches", tag="split")
+    if ck.coq_ok:
+        mm["reqmd"] = ck.coq_eval_cases(lines("cases_reqmd.txt"), hdr, "int * list str * list str * list str", "reqmd_mismatches", tag="reqmd")
     if ck.coq_ok:
         mm["witness"] = ck.coq_eval_cases(lines("cases_witness.txt"), hdr, "int * file * wobs", "witness_mismatches", shards=1, tag="witness")
     if ck.coq_ok:
         mm["runtime"] = ck.coq_eval_cases(lines("cases_runtime.txt"), hdr, "int * mdata * list (str * list str) * list (str * list str) * bool * bool * list stage", "runtime_mismatches", tag="runtime")
+    if ck.coq_ok:
+        mm["history"] = ck.coq_eval_cases(lines("cases_history.txt"), hdr, "int * mdata * list (str * list str) * mdata * list (str * list str) * mdata", "history_mismatches", tag="history")
     if ck.coq_ok and tier == "thorough":
         hdrv = "From GRPC Require Import Model Values RunValues.\nOpen Scope Z_scope."
         vl = lines("cases_values.txt")
@@ -87,7 +91,7 @@ def run(tier, replay=None):
             ck.notes.append(k)
     cov = {"evaluations": res["evaluations"], "distinct_nontrivial": res["distinct_nontrivial"], "rule": res["rule"],
            "samples": res["samples"], "distribution": res["distribution"],
-           "model_cases": {s: len(lines("cases_%s.txt" % s)) for s in ("main", "names", "split", "witness", "runtime", "values")},
+           "model_cases": {s: len(lines("cases_%s.txt" % s)) for s in ("main", "names", "split", "reqmd", "witness", "runtime", "history", "values")},
            "model_mismatches": {s: (len(b) if b is not None else None) for s, b in mm.items()} if ck.coq_ok else None,
            "extra": res.get("extra", {}), "exhaustive": False,
            "partial": "protoc is absent: the protoc finaliser is dropped, the protobuf wire format is not exercised, tier B uses stand-in pb structs with protoc-gen-go's field naming"}
